@@ -38,6 +38,24 @@ class BuildLock:
         self.f.close()
 
 
+def regenerate_facts() -> dict:
+    """run the translator on /repo's working tree (PV_REPO); rewrites lean/PvModel/Generated/*.lean only when the facts changed.
+    returns the detailed facts (also written to .work/facts.json)."""
+    import importlib.util
+    spec = importlib.util.spec_from_file_location("pv_translate", VERIF / "tools" / "translate.py")
+    tr = importlib.util.module_from_spec(spec)
+    spec.loader.exec_module(tr)
+    repo = Path(os.environ.get("PV_REPO", "/repo"))
+    algos, core = tr.translate(repo)
+    a_lean, c_lean = tr.render_lean(algos, core)
+    with BuildLock():
+        tr.write_if_changed(LEAN_DIR / "PvModel" / "Generated" / "Algos.lean", a_lean)
+        tr.write_if_changed(LEAN_DIR / "PvModel" / "Generated" / "Core.lean", c_lean)
+        WORK.mkdir(exist_ok=True)
+        (WORK / "facts.json").write_text(json.dumps({"algos": algos, "core": core}, indent=1))
+    return {"algos": algos, "core": core}
+
+
 def lake_build(targets: list[str], timeout=1800) -> tuple[bool, str]:
     """returns (ok, output). Serialised by a file lock: Generated/*.lean and .lake are shared."""
     with BuildLock():
